@@ -32,7 +32,7 @@ for d in sorted(glob.glob(os.path.join(V,"seeded","C*-*"))):
         if res["base"] != "HEAD":
             # an older base still has defects that were repaired since: only a signature recorded for this seed counts there
             want = set(meta.get("signatures", []))
-            det = [p for p in det if want & set(res["checks"][p]["signatures"])] if want else det
+            det = [p for p in det if want & set(res["checks"][p].get("all_signatures") or res["checks"][p]["signatures"])] if want else det
         out[key] = {"base": res["base"], "suite": res["suite_passes_with_change"], "demo_fails_with": res["demo_fails_with_change"], "demo_passes_without": res["demo_passes_without_change"], "detected_by": det}
     print(key, out[key], flush=True)
     json.dump(out, open(os.path.join(V,"seeded","regression.json"),"w"), indent=1, sort_keys=True)
